@@ -5,6 +5,7 @@ import (
 	"encoding/json"
 	"fmt"
 	"iter"
+	"math"
 	"math/rand"
 	"os"
 	"reflect"
@@ -292,13 +293,20 @@ func (x *executor) runQuery(e *bs.BloomSearchEngine, q *bs.Query, trips map[int]
 		for _, row := range got {
 			grow(row)
 		}
+		changed := make([]bool, len(got))
 		for k, row := range got {
 			// a row that already differed when it was returned has been counted; this one changed under the appends
 			if oks[k] && !matchesTrip(row, trips[res[k]]) {
 				x.shared.Add(1)
+				changed[k] = true
 			}
 		}
-		for _, row := range got {
+		// then destructively, one row after the other: a row must still be what it was when the rows returned before it
+		// have been overwritten in place (nested values included)
+		for k, row := range got {
+			if oks[k] && !changed[k] && !matchesTrip(row, trips[res[k]]) {
+				x.shared.Add(1)
+			}
 			mutate(row)
 		}
 	}
@@ -389,6 +397,25 @@ func (x *executor) Run(c *Case) *Obs {
 				h.Must(eng.Flush(context.Background()), "flush")
 			}
 			dones = append(dones, done)
+		}
+		// a batch that has to be rejected as a whole (its second row cannot be marshaled), aimed at a partition that has
+		// rows buffered: it must leave no trace - no row, and nothing in the entry sets the block's filters are built from
+		if c.Dims.Reject && len(batch) > 0 {
+			extra := map[string]any{}
+			for k, v := range batch[len(batch)-1] {
+				extra[k] = v
+			}
+			extra["id"], extra["zzrej"] = "rej", "zzrejected zztoken"
+			bad := map[string]any{"id": "bad", "x": math.NaN()}
+			if p, ok := extra["p"]; ok {
+				bad["p"] = p
+			}
+			rdone := make(chan error, 1)
+			if err := eng.IngestRows(context.Background(), []map[string]any{extra, bad}, rdone); err == nil {
+				if rerr := <-rdone; rerr == nil {
+					o.IngestErr++ // a batch with an unmarshalable row was acknowledged as durable
+				}
+			}
 		}
 		h.Must(eng.Flush(context.Background()), "flush")
 		for _, d := range dones {
